@@ -163,6 +163,7 @@ type cliWorld struct {
 	sock  sio.ClientSocket // "/", the first socket registered with the manager
 	sockB sio.ClientSocket // "/b", connected as well: the manager dispatches its events to several sockets
 	v     vsched.Var
+	retry bool // the socket was configured with Retries / AckTimeout
 }
 
 type cliOp struct {
@@ -172,7 +173,14 @@ type cliOp struct {
 
 var cliOps = []cliOp{
 	{"Emit", func(w *cliWorld) { w.sock.Emit("m", 1) }},
-	{"Emit+ack", func(w *cliWorld) { w.sock.Emit("ma", 1, hAck) }},
+	{"Emit+ack", func(w *cliWorld) {
+		if w.retry {
+			// with Retries the ack function takes the error of a timed-out try first
+			w.sock.Emit("ma", 1, func(error, string) {})
+			return
+		}
+		w.sock.Emit("ma", 1, hAck)
+	}},
 	{"Emit-binary", func(w *cliWorld) { w.sock.Emit("mb", sio.Binary{4, 5}) }},
 	{"Timeout.Emit", func(w *cliWorld) { w.sock.Timeout(time.Second).Emit("none", func(error) {}) }},
 	{"OnEvent", func(w *cliWorld) { w.sock.OnEvent("n2", hEvent) }},
@@ -191,11 +199,21 @@ var cliOps = []cliOp{
 	{"server-disconnects-socket", func(w *cliWorld) { w.srv.DisconnectSockets(false) }},
 }
 
-func cliPair(a, b cliOp, bound int) *vx.Scenario {
-	sc := &vx.Scenario{Name: "client/" + a.name + " || " + b.name, Bound: bound, Horizon: 40 * time.Second}
+// retryOps: the operations that meet the packet queue of a socket configured with Retries (emits are
+// queued and sent one at a time, each waits for its acknowledgement or its ack timeout and is retried).
+var retryOps = map[string]bool{"Emit": true, "Emit+ack": true, "Emit-binary": true, "Disconnect": true, "Connect-again": true, "link-breaks": true,
+	"Manager.Close": true, "server-disconnects-socket": true, "server-emits": true, "other-socket-Emit": true}
+
+func cliPair(a, b cliOp, bound int, retries ...bool) *vx.Scenario {
+	name := "client/" + a.name + " || " + b.name
+	retry := len(retries) > 0 && retries[0]
+	if retry {
+		name = "client-with-retries/" + a.name + " || " + b.name
+	}
+	sc := &vx.Scenario{Name: name, Bound: bound, Horizon: 40 * time.Second}
 	sc.Body = func(e *vsched.Exec) func() vx.Result {
 		vsched.SetExploring(false)
-		w := &cliWorld{}
+		w := &cliWorld{retry: retry}
 		var link *vrig.Inproc
 		w.srv, w.mgr, link = vrig.NewSioPair(nil, nil)
 		w.link = link
@@ -209,7 +227,11 @@ func cliPair(a, b cliOp, bound int) *vx.Scenario {
 			})
 			w.srv.Of(ns).OnConnection(func(sio.ServerSocket) {})
 		}
-		w.sock = w.mgr.Socket("/", nil)
+		var scfg *sio.ClientSocketConfig
+		if retry {
+			scfg = &sio.ClientSocketConfig{Retries: 2, AckTimeout: time.Second}
+		}
+		w.sock = w.mgr.Socket("/", scfg)
 		w.sock.OnEvent("n", hEvent)
 		w.sock.OnConnect(func() { w.v.Do(func() { ready = true }) })
 		w.sock.Connect()
@@ -326,6 +348,13 @@ func scenarios(tier string) []*vx.Scenario {
 			s = append(s, cliPair(cliOps[i], cliOps[j], b))
 		}
 	}
+	for i := range cliOps {
+		for j := i; j < len(cliOps); j++ {
+			if retryOps[cliOps[i].name] && retryOps[cliOps[j].name] {
+				s = append(s, cliPair(cliOps[i], cliOps[j], b, true))
+			}
+		}
+	}
 	for _, sa := range []bool{false, true} {
 		for i := range adOps {
 			for j := i; j < len(adOps); j++ {
@@ -344,7 +373,7 @@ func main() {
 	vx.Main(vx.Config{
 		Property:  "C16",
 		Level:     "model_checking",
-		Rule:      "every unordered pair (incl. an operation with itself) of operations from a 26-operation server alphabet (API calls and incoming traffic) over harness-implemented Engine.IO sockets, an 18-operation Go-client alphabet (a manager with two connected sockets; incl. the link breaking, which starts the reconnection machinery) over the in-process polling link and a 10-operation adapter alphabet (incl. a Broadcast whose argument cannot be encoded, recovered by the caller) (in-memory and session-aware) as a two-thread program, plus every server operation issued from inside an event handler, a disconnecting handler and an ack callback against two concurrent operations; all schedules to the deviation bound, each judged by the race detector (reports whose racing access lies in repository code), the deadlock detector and the held-mutex check. distinct_nontrivial = deviating schedules",
+		Rule:      "every unordered pair (incl. an operation with itself) of operations from a 26-operation server alphabet (API calls and incoming traffic) over harness-implemented Engine.IO sockets, an 18-operation Go-client alphabet (a manager with two connected sockets; incl. the link breaking, which starts the reconnection machinery) over the in-process polling link, the same with the socket configured with Retries and AckTimeout (packet queue: 10 operations), and a 10-operation adapter alphabet (incl. a Broadcast whose argument cannot be encoded, recovered by the caller) (in-memory and session-aware) as a two-thread program, plus every server operation issued from inside an event handler, a disconnecting handler and an ack callback against two concurrent operations; all schedules to the deviation bound, each judged by the race detector (reports whose racing access lies in repository code), the deadlock detector and the held-mutex check. distinct_nontrivial = deviating schedules",
 		Scenarios: scenarios,
 		Budget: func(tier string) time.Duration {
 			if tier == "thorough" {
